@@ -1392,7 +1392,11 @@ class Engine:
             fr.visits[label] = (n, st.nforks, sym)
             lb = self.loop_bound
             if sym > lb and self.loop_bound_overrides:
-                frames_ = self.loc(ins).split(' <- ')
+                # the loop is identified by its header block (the block being re-entered), not by the branch that
+                # jumps back to it (which may be inlined code from elsewhere)
+                hdr = fr.fn.blocks[label]
+                hins = next((i_ for i_ in hdr if i_.op != 'phi' and i_.dbg), ins)
+                frames_ = self.loc(hins).split(' <- ')
                 where = next((f_ for f_ in frames_ if not f_.startswith('library/')), frames_[0])
                 for pat, b_ in self.loop_bound_overrides:
                     if pat in where:
